@@ -308,6 +308,8 @@ class Engine:
 
     @staticmethod
     def _run(s, zs, timeout_ms):
+        # no helper threads here: z3 ASTs freed by Python's GC from a second thread while the main thread is inside a
+        # solver call corrupt the context; run-away solver calls are bounded by the per-task hard limit of the scheduler
         s.set("timeout", max(int(timeout_ms), 100))
         for zz in zs:
             s.add(zz)
@@ -536,11 +538,47 @@ class Engine:
         return out
 
     # ---------------------------------------------------------------- obligations
-    def oblige(self, name, cond, then_assume=False):
+    def oblige(self, name, cond, then_assume=False, using=None):
         """discharge `cond` under the current path condition; with then_assume a discharged obligation is kept as a
-        lemma for later obligations (never an undecided or violated one)"""
+        lemma for later obligations (never an undecided or violated one).  `using`: premises (facts already assumed
+        or discharged on this path) - the query is posed from these alone, plus the definitions of the symbols that
+        occur (a subset of the path condition, so unsat is sound)."""
         before = self.stats["discharged"]
-        self._oblige(name, cond)
+        if using is not None and isinstance(cond, SB):
+            self.stats["obligations"] += 1
+            prem = [u.z for u in using if isinstance(u, SB)]
+            if any((isinstance(u, (bool, np.bool_)) and not u) for u in using):
+                raise HarnessError(f"{name}: a premise is constant false")
+            need = set(cond.atoms)
+            for u in using:
+                if isinstance(u, SB):
+                    need |= set(u.atoms)
+            defs = []
+            seen = set()
+            frontier = set(need)
+            while frontier:
+                a = frontier.pop()
+                if a in seen:
+                    continue
+                seen.add(a)
+                for i in self.defs.get(a, ()):
+                    defs.append(self.asserts[i][0])
+                    frontier |= (self._occ(i) - seen)
+            r, m = self._solve(defs + prem + [z3.Not(cond.z)])
+            if r == "unsat":
+                self.stats["discharged"] += 1
+                self.stats["from_premises"] = self.stats.get("from_premises", 0) + 1
+                if len(self.samples) < 6:
+                    self.samples.append(dict(obligation=name, verdict="unsat (from stated premises)", config=self.config))
+            elif r == "unknown":
+                self.stats["undecided"] += 1
+                self.undecided_names.append(f"{name} @ {self.config}")
+            else:
+                # not implied by the premises alone: fall back to the full path condition
+                self.stats["obligations"] -= 1
+                self._oblige(name, cond)
+        else:
+            self._oblige(name, cond)
         if then_assume and self.stats["discharged"] > before and isinstance(cond, SB):
             self._add_pc(cond, True)
 
@@ -841,6 +879,43 @@ class Engine:
 
     # ---------------------------------------------------------------- exploration
     def explore(self):
+        import signal
+
+        class HardTimeout(BaseException):
+            pass
+
+        def _alarm(signum, frame):
+            raise HardTimeout()
+        hard = None
+        if self.o.get("budget_s"):
+            hard = self.o["budget_s"] * 1.5 + 60
+            try:
+                signal.signal(signal.SIGALRM, _alarm)
+                signal.setitimer(signal.ITIMER_REAL, hard)
+            except (ValueError, AttributeError):       # not in the main thread
+                hard = None
+        try:
+            self._explore()
+        except HardTimeout:
+            self.stats["incomplete"] = True
+            self.undecided_names.append(f"hard time limit ({hard:.0f}s) hit @ {self.config}")
+            try:
+                from . import bind
+                bind.unbind_all()
+            except Exception:
+                pass
+        finally:
+            if hard is not None:
+                signal.setitimer(signal.ITIMER_REAL, 0)
+        S.ENGINE = None
+        out = dict(prop=self.prop, harness=self.hname, config=self.config, stats=self.stats,
+                   samples=self.samples, violations=self.violations, errors=self.errors,
+                   undecided=self.undecided_names[:20], functions=sorted(self.functions),
+                   assumptions=sorted(self.assumptions), lemmas=sorted(self.lemmas),
+                   wall_s=time.time() - self.t0)
+        return out
+
+    def _explore(self):
         self.work = [[]]
         while self.work:
             if self.stats["paths"] >= self.o["max_paths"]:
@@ -852,13 +927,6 @@ class Engine:
                 break
             prefix = self.work.pop()
             self.run_path(prefix)
-        S.ENGINE = None
-        out = dict(prop=self.prop, harness=self.hname, config=self.config, stats=self.stats,
-                   samples=self.samples, violations=self.violations, errors=self.errors,
-                   undecided=self.undecided_names[:20], functions=sorted(self.functions),
-                   assumptions=sorted(self.assumptions), lemmas=sorted(self.lemmas),
-                   wall_s=time.time() - self.t0)
-        return out
 
 
 def _atom_of(r: SR) -> int:
@@ -1007,8 +1075,8 @@ class SymCtx(_CtxBase):
         self.eng.assume(v == value)
         return v
 
-    def oblige(self, name, cond, then_assume=False):
-        self.eng.oblige(name, cond, then_assume)
+    def oblige(self, name, cond, then_assume=False, using=None):
+        self.eng.oblige(name, cond, then_assume, using)
 
     def output(self, name, value):
         self.eng.outputs[name] = value
@@ -1068,7 +1136,7 @@ class ConcreteCtx(_CtxBase):
             # the witness does not satisfy the precondition in floating point: not a valid replay
             raise PathAbort("assumption false in concrete replay")
 
-    def oblige(self, name, cond, then_assume=False):
+    def oblige(self, name, cond, then_assume=False, using=None):
         self.checked += 1
         ok = bool(cond)
         if not ok:
